@@ -122,6 +122,9 @@ func (tmg *TCPMuxGroup) HTTPConnectListen(
 ) (ln *TCPMuxGroupListener, err error) {
 	tmg.mu.Lock()
 	defer tmg.mu.Unlock()
+	if tmg.closed {
+		return nil, errGroupClosed
+	}
 	if len(tmg.lns) == 0 {
 		// the first listener, listen on the real address
 		tcpMuxLn, errRet := tmg.ctl.tcpMuxHTTPConnectMuxer.Listen(ctx, &routeConfig)
